@@ -235,21 +235,7 @@ def run(world, tier, info, only=None):
     ck.analysed = {"consumer_crates": CONSUMER_CRATES, "consumer_functions": n_cons_fns, "metadata_readers": sorted(readers),
                    "key_pairs": sorted("%s.%s" % k for k in K), "read_pairs": sorted("%s.%s" % k for k in R)}
 
-    # ---------------- R4: commit order ---------------------------------------------------------------
-    WR = r"^veryl::utils::write_file_if_changed$|^veryl::cmd_build::CmdBuild::gen_filelist$|^std::fs::write$|^veryl_metadata::metadata::Metadata::save_build_info$|^veryl_path::atomic_write$"
-    for cmd in ("veryl::cmd_build::CmdBuild::exec", "veryl::cmd_check::CmdCheck::exec"):
-        f = Fn(w.mir(cmd))
-        saves = f.calls(r"^veryl::incremental::Incremental::save$")
-        ck.floor("R4", "Incremental::save calls in %s" % cmd.split("::")[-2], len(saves), 1)
-        writes = f.calls(WR)
-        if cmd.endswith("CmdBuild::exec"):
-            ck.floor("R4", "output-writing calls in CmdBuild::exec", len(writes), 2)
-        for bi, t in saves:
-            after = f.reach_from(t["to"]) if t.get("to") is not None else set()
-            late = [(wb, wt) for wb, wt in writes if wb in after]
-            ck.ob("R4", "no-output-after-save:%s" % cmd.split("::")[-2], not late, site(w.fns[cmd], t["l"]),
-                  "no output-writing call is reachable after the manifest is saved" if not late else
-                  "output written after the manifest was committed: %s at line %s" % (late[0][1]["callee"], late[0][1]["l"]))
+    commit_order(ck, w, "R4")
     # save_build_info (generated_files list) is written by main after exec
     # ---------------- R5: capture only clean pass 1 ---------------------------------------------------
     caps = []
@@ -267,3 +253,24 @@ def run(world, tier, info, only=None):
         ck.ob("R5", "cacheable=pass1-errors.is_empty:%s" % p, ok, site(w.fns[p], t["l"]),
               "the `cacheable` argument is analyze_pass1(..).is_empty() of the same iteration")
     return ck.finish(info)
+
+
+def commit_order(ck, w, R):
+    """the cache manifest is committed (Incremental::save) only after every output of the command was written"""
+    WR = r"^veryl::utils::write_file_if_changed$|^veryl::cmd_build::CmdBuild::gen_filelist$|^std::fs::write$|^veryl_metadata::metadata::Metadata::save_build_info$|^veryl_path::atomic_write$"
+    for cmd in ("veryl::cmd_build::CmdBuild::exec", "veryl::cmd_check::CmdCheck::exec"):
+        if cmd not in w.fns:
+            ck.missing(R, cmd)
+            continue
+        f = Fn(w.mir(cmd))
+        saves = f.calls(r"^veryl::incremental::Incremental::save$")
+        ck.floor(R, "Incremental::save calls in %s" % cmd.split("::")[-2], len(saves), 1)
+        writes = f.calls(WR)
+        if cmd.endswith("CmdBuild::exec"):
+            ck.floor(R, "output-writing calls in CmdBuild::exec", len(writes), 2)
+        for bi, t in saves:
+            after = f.reach_from(t["to"]) if t.get("to") is not None else set()
+            late = [(wb, wt) for wb, wt in writes if wb in after]
+            ck.ob(R, "no-output-after-save:%s" % cmd.split("::")[-2], not late, site(w.fns[cmd], t["l"]),
+                  "no output-writing call is reachable after the manifest is saved" if not late else
+                  "output written after the manifest was committed: %s at line %s" % (late[0][1]["callee"], late[0][1]["l"]))
